@@ -163,7 +163,8 @@ def get_zero_crossings_array_indices(values, keep_adj_zeros=False, tol=0.0):
         no_adj_is = np.where(diff_is > 1)[0]
         zero_indices = np.take(zero_indices, no_adj_is)
     # if negative then sign has switched
-    sign_switch = values[1:] * values[:-1]
+    # product of the signs, not of the values (which underflows to -0.0 for magnitudes below ~1e-154)
+    sign_switch = np.sign(values[1:]) * np.sign(values[:-1])
     sign_switch = np.insert(sign_switch, 0, values[0])
     through_zero_indices = np.where(sign_switch < 0)[0]
     all_zc_indices = np.concatenate((zero_indices, through_zero_indices))
